@@ -33,7 +33,7 @@ func c16EciesGroups() []c16eg {
 	}
 }
 
-var c16QuickLens = []int{0, 1, 15, 16, 17, 31, 32, 33, 63, 64, 65, 255, 256, 1023, 4096}
+var c16QuickLens = []int{0, 1, 15, 16, 17, 31, 32, 33, 63, 64, 65, 255, 256, 1023, 1024, 1025, 1500, 2049, 3000, 4095, 4096}
 
 // c16LongLens is the thorough length sweep 0..4096: dense at the bottom, around
 // every power of two and AES/XOF block multiples, stepped in between.
